@@ -96,7 +96,7 @@ def str_guarded(repo, fn, g, cmp_node):
     return all(o in proven for o in ops if o) and all(ops)
 
 
-def run(ctx):
+def _run_base(ctx):
     repo, cg = ctx.repo, ctx.cg
     ctx.rule('R02.1', 'equality that suppresses diff output must discriminate JSON types: value comparisons of the two documents are str-guarded '
              '(or schema-exact), no table installs a bare operator.__eq__ as the deciding predicate for atomic items, equality helpers test the number type', floor=4)
@@ -418,3 +418,13 @@ def _blocks(fn):
                 out.append(b)
     # keep innermost blocks that contain both kinds: prefer if-arm bodies over enclosing loop when both present in the arm
     return out
+
+
+def run(ctx):
+    ctx.rule('R02.8', 'name binding: every global name a function refers to is bound at module level or builtin, and every local is assigned on every path before it is read', floor=6)
+    ctx.rule('R02.7', 'every exactly resolved call binds against its callee\'s signature (no missing/unknown/surplus argument on any arm)', floor=4)
+    _run_base(ctx)
+    from ..signatures import call_compat
+    call_compat(ctx, 'R02.7', ['nbdime.diffing.generic', 'nbdime.diffing.seq', 'nbdime.diffing.sequences', 'nbdime.diffing.snakes', 'nbdime.diffing.lcs', 'nbdime.patching', 'nbdime.diff_utils', 'nbdime.diff_format'], 'the generic diff/patch aborts for the documents that reach this arm')
+    from ..names import name_binding
+    name_binding(ctx, 'R02.8', ['nbdime.diffing.generic', 'nbdime.diffing.seq', 'nbdime.diffing.sequences', 'nbdime.diffing.snakes', 'nbdime.diffing.lcs', 'nbdime.patching', 'nbdime.diff_utils', 'nbdime.diff_format'])
